@@ -57,32 +57,77 @@ def logSafeSem (a b : CExpr) (ca cb : CE) : Bool :=
 
 def ternSafeSem (c : CExpr) (cc ca cb : CE) : Bool :=
   match cc.kind with
-  | .lit _ => decide (32 ≤ ca.ty.width) && decide (32 ≤ cb.ty.width) && ca.ty.eqv cb.ty
-  | .boolLit _ => decide (32 ≤ ca.ty.width) && decide (32 ≤ cb.ty.width) && ca.ty.eqv cb.ty
+  | .lit v => liveKeepsTy (v != 0) ca cb
+  | .boolLit r => liveKeepsTy r ca cb
   | _ => condSafe c cc && wideSafeSem ca cb
+
+/-! ### macros that read only the low bits of their first argument
+
+  `extract64(v, start, len)` / `sextract64(v, start, len)` (QEMU's `fZXTN`/`fSXTN`: `((N) != 0) ? sextract64(VAL, 0, N) : 0LL`)
+  read the bits `start … start+len-1` of `v`.  The parameter is a `uint64_t`; a narrower SIGNED argument (`RsV`,
+  `(int16_t)…`) is zero-extended by the code (`CAST(64, IL_FALSE, x)`, `castFillNeedsBothSigned`) where C sign-extends
+  it — two values that differ only above the width of the argument.  With the flag `lb` ("low bits") the carve-out
+  accepts such an argument when `start`, `len` are constants and `start + len ≤ width(argument)`; the theorems then
+  assume `Sem.MsLow ms` (Lemmas/SemLow.lean) of the otherwise uninterpreted macro interpretation: the two macros do
+  not depend on the bits of `v` from `start + len` upwards.  Without the flag (`lb = false`, the default: every
+  predicate below written without it) nothing changes and no assumption is made. -/
+
+/-- the macros the assumption `Sem.MsLow` is about -/
+def lowMacros : List String := ["extract64", "sextract64"]
+
+/-- the macro argument `a`, compiled by the repaired lowering and converted to the parameter type `p`, is an integer
+    constant: its run-time value -/
+def constArg (asg : List String) (a : CExpr) (p : CT) : Option Nat :=
+  match compileExpr ⟨asg, Cfg.fixed⟩ a with
+  | .ok ca =>
+      (match (if ca.ty.eqv p.toVT then ca else initACast Cfg.fixed p.toVT ca).il with
+       | .const _ w v => some (BitVec.ofInt w v).toNat
+       | _ => none)
+  | .error _ => none
+
+/-- `name(v, start, len)` is a call of a low-bits macro with a 64-bit first parameter and constant `start`, `len`:
+    the number of low bits of `v` that matter -/
+def lowBitsOf (asg : List String) (name : String) (args : List CExpr) (params : List CT) : Option Nat :=
+  match args, params with
+  | [_, s, l], [p, ps, pl] =>
+      if lowMacros.contains name && p.width == 64 then
+        (match constArg asg s ps, constArg asg l pl with
+         | some st, some ln => some (st + ln)
+         | _, _ => none)
+      else none
+  | _, _ => none
+
+/-- the conversion of the compiled argument `ca` to a wider parameter may differ between the lowerings above the
+    width of `ca`: harmless when only the low `k ≤ width(ca)` bits are read -/
+def lowSafe (low : Option Nat) (ca : CE) : Bool :=
+  match low with
+  | some k => !ca.ty.hasFlag VT.gBOOL && decide (k ≤ ca.ty.width)
+  | none => false
 
 mutual
 /-- node-wise SEMANTIC carve-out: `CarveN` with `CastSafe` replaced by `CastSafeSem` at every conversion site; a load
-    may also narrow (`t.width ≤ w`) -/
-def CarveNSem (asg : List String) : CExpr → Bool
+    may also narrow (`t.width ≤ w`).  `lb` (default `false`): also accept the first argument of a low-bits macro call
+    with constant `start`/`len` when only bits below its width are read (see above). -/
+def CarveNSem (asg : List String) (e : CExpr) (lb : Bool := false) : Bool :=
+  match e with
   | .reg n k t => regSafe asg n k t
   | .imm _ _ => true
   | .lit v h sfx => litTypeCode sfx == litTypeC v h sfx
   | .var _ _ => true
-  | .cast t e => CarveNSem asg e && !isNotLog e && onA asg e (fun ce => CastSafeSem t.toVT ce)
-  | .un op e => CarveNSem asg e && !isNotLog e && onA asg e (fun ce => unSafe op ce)
-  | .not e => CarveNSem asg e && onA asg e (fun ce => condSafe e ce)
-  | .bin op a b => CarveNSem asg a && CarveNSem asg b && !isNotLog a && !isNotLog b &&
+  | .cast t e => CarveNSem asg e lb && !isNotLog e && onA asg e (fun ce => CastSafeSem t.toVT ce)
+  | .un op e => CarveNSem asg e lb && !isNotLog e && onA asg e (fun ce => unSafe op ce)
+  | .not e => CarveNSem asg e lb && onA asg e (fun ce => condSafe e ce)
+  | .bin op a b => CarveNSem asg a lb && CarveNSem asg b lb && !isNotLog a && !isNotLog b &&
       onA asg a (fun ca => onA asg b (fun cb => binSafeSem op ca cb))
-  | .shift _ a b => CarveNSem asg a && CarveNSem asg b && !isNotLog a &&
+  | .shift _ a b => CarveNSem asg a lb && CarveNSem asg b lb && !isNotLog a &&
       onA asg a (fun ca => decide (32 ≤ ca.ty.width))
-  | .cmp _ a b => CarveNSem asg a && CarveNSem asg b && !isNotLog a && !isNotLog b &&
+  | .cmp _ a b => CarveNSem asg a lb && CarveNSem asg b lb && !isNotLog a && !isNotLog b &&
       onA asg a (fun ca => onA asg b (fun cb => cmpSafeSem ca cb))
-  | .log _ a b => CarveNSem asg a && CarveNSem asg b &&
+  | .log _ a b => CarveNSem asg a lb && CarveNSem asg b lb &&
       onA asg a (fun ca => onA asg b (fun cb => logSafeSem a b ca cb))
-  | .tern c a b => CarveNSem asg c && CarveNSem asg a && CarveNSem asg b && !isNotLog a && !isNotLog b &&
+  | .tern c a b => CarveNSem asg c lb && CarveNSem asg a lb && CarveNSem asg b lb && !isNotLog a && !isNotLog b &&
       onA asg c (fun cc => onA asg a (fun ca => onA asg b (fun cb => ternSafeSem c cc ca cb)))
-  | .macro _ args _ params => CarveNsSem asg args params
+  | .macro name args _ params => CarveNsSem asg args params lb (if lb then lowBitsOf asg name args params else none)
   | .load s w t => !s || t.signed || decide (t.width ≤ w)
   | .post _ _ _ => false
   | .call _ _ _ _ => false
@@ -90,14 +135,35 @@ def CarveNSem (asg : List String) : CExpr → Bool
   | .seqexpr _ _ _ _ _ => false
   | .callx _ _ _ _ _ => false
   | .xmacro _ _ _ => false
-def CarveNsSem (asg : List String) : List CExpr → List CT → Bool
+/-- macro arguments; `low = some k`: of the FIRST argument only the low `k` bits are read -/
+def CarveNsSem (asg : List String) (args : List CExpr) (params : List CT) (lb : Bool := false) (low : Option Nat := none) : Bool :=
+  match args, params with
   | [], _ => true
   | _ :: _, [] => true
-  | a :: as, p :: ps => CarveNSem asg a && !isNotLog a && onA asg a (fun ca => CastSafeSem p.toVT ca) && CarveNsSem asg as ps
+  | a :: as, p :: ps => CarveNSem asg a lb && !isNotLog a && onA asg a (fun ca => CastSafeSem p.toVT ca || lowSafe low ca) &&
+      CarveNsSem asg as ps lb none
 end
 
 /-- semantic carve-out for an expression used as a VALUE -/
-def CarveESem (asg : List String) (e : CExpr) : Bool := CarveNSem asg e && !isNotLog e
+def CarveESem (asg : List String) (e : CExpr) (lb : Bool := false) : Bool := CarveNSem asg e lb && !isNotLog e
+
+/-- semantic carve-out for an expression in CONDITION position (`if`, `for`): only its truth value is used.  Node-wise
+    carve-out as for a value; at the top a `!`/`&&`/`||` is accepted — the code types such a node like its operand
+    instead of as a 0/1 `int` (`boolOpTypedAsOperand`), but it IS a `BooleanOp` object whose IL boolean both lowerings
+    take as it is (`condILk`, `PKind.boolObj`; the repaired lowering by the BOOL flag it gives the node).  Any other
+    condition is wrapped in `NON_ZERO` by the code iff by the repaired lowering (`condOK`).
+    (The first operand of `?:` is treated the same way inside `CarveNSem`: `CarveNSem c` and `condSafe`.) -/
+def CarveCSem (env : CEnv) (c : CExpr) (lb : Bool := false) : Bool :=
+  CarveNSem env.assigned c lb &&
+  (isNotLog c || (match compileExpr (fixedEnv env) c with | .ok cc => condOK cc | .error _ => true))
+
+/-- the TARGET of an assignment: value-carved like every expression, or — for a plain `=` — a register on whose type
+    the two lowerings agree (`regSafe` without its "read and assigned" clause).  The target of `=` is only written
+    (`destWrite` goes by the syntax of the target); the compiled READ of it, which is where the code deviates for an
+    explicit/alias register assigned somewhere (`assignedRegsReadNew`: `P0 = …;`, `HEX_REG_ALIAS_SA1 = …;`), contributes
+    nothing but its type.  Compound operators (`P0 |= x`) do read the target and keep the full condition. -/
+def lhsCarveSem (asg : List String) (op : String) (lhs : CExpr) : Bool :=
+  CarveESem asg lhs || (op == "=" && (match lhs with | .reg n k t => regSafe [] n k t | _ => false))
 
 /-- `assignCarve` with the semantic conversion test -/
 def assignCarveSem (op : String) (cd ce : CE) : Bool :=
@@ -109,48 +175,49 @@ def assignCarveSem (op : String) (cd ce : CE) : Bool :=
 mutual
 /-- SEMANTIC carve-out of statements (`env.assigned`: operand variables assigned anywhere in the behaviour): `CarveS`
     with `CarveE` replaced by `CarveESem` and `castOK` by `castOKSem`; stored data may be signed when the store
-    narrows or keeps the width; a chained assignment keeps the syntactic carve-out. -/
-def CarveSSem (env : CEnv) : CStmt → Bool
+    narrows or keeps the width; a chained assignment keeps the syntactic carve-out; the condition of `if`/`for` is in
+    the condition-position carve-out `CarveCSem` (a top-level `!`/`&&`/`||` is accepted there); the target of a plain
+    `=` may be an explicit/alias register that is assigned (`lhsCarveSem`).  `lb` (default `false`): the low-bits
+    macro arguments of `CarveNSem`. -/
+def CarveSSem (env : CEnv) (s : CStmt) (lb : Bool := false) : Bool :=
+  match s with
   | .decl _ _ none => true
   | .decl t _ (some e) =>
-      CarveESem env.assigned e && (match compileExpr (fixedEnv env) e with
+      CarveESem env.assigned e lb && (match compileExpr (fixedEnv env) e with
         | .ok ce => castOKSem t.toVT ce
         | .error _ => true)
   | .assign lhs op e =>
-      assignOps.contains op && CarveESem env.assigned lhs && CarveESem env.assigned e &&
+      assignOps.contains op && lhsCarveSem env.assigned op lhs && CarveESem env.assigned e lb &&
       (match compileExpr (fixedEnv env) lhs, compileExpr (fixedEnv env) e with
        | .ok cd, .ok ce => assignCarveSem op cd ce
        | _, _ => true)
   | .chain lhs1 lhs2 op2 e => CarveS (CarveE env.assigned) env (.chain lhs1 lhs2 op2 e)
   | .store w e =>
-      CarveESem env.assigned e && (match compileExpr (fixedEnv env) e with
+      CarveESem env.assigned e lb && (match compileExpr (fixedEnv env) e with
         | .ok ce => if ce.ty.hasFlag VT.gBOOL then
                       !(VT.eqv { signed := false, width := w, group := 1 } ce.ty) && castOK { signed := false, width := w, group := 1 } ce
                     else (!ce.ty.signed || decide (w ≤ ce.ty.width))
         | .error _ => true)
   | .ite c t e =>
-      CarveESem env.assigned c && (match compileExpr (fixedEnv env) c with | .ok cc => condOK cc | .error _ => true) &&
-      CarveSsSem env t && (match e with | some e => CarveSsSem env e | none => true)
-  | .for_ _ c step b =>
-      step == 0 && CarveESem env.assigned c &&
-      (match compileExpr (fixedEnv env) c with | .ok cc => condOK cc | .error _ => true) &&
-      CarveSsSem env b
+      CarveCSem env c lb && CarveSsSem env t lb && (match e with | some e => CarveSsSem env e lb | none => true)
+  | .for_ _ c step b => step == 0 && CarveCSem env c lb && CarveSsSem env b lb
   | .jump e =>
-      CarveESem env.assigned e && (match compileExpr (fixedEnv env) e with
+      CarveESem env.assigned e lb && (match compileExpr (fixedEnv env) e with
         | .ok ce => ce.ty.width == 32 || castOKSem { signed := false, width := 32, group := 1 } ce
         | .error _ => true)
   | .skip _ => true
-  | .exprstmt e => CarveESem env.assigned e
+  | .exprstmt e => CarveESem env.assigned e lb
   | .ret _ => true
   | .vcall _ _ _ _ => true
-def CarveSsSem (env : CEnv) : List CStmt → Bool
+def CarveSsSem (env : CEnv) (ss : List CStmt) (lb : Bool := false) : Bool :=
+  match ss with
   | [] => true
-  | s :: ss => CarveSSem env s && CarveSsSem env ss
+  | s :: ss => CarveSSem env s lb && CarveSsSem env ss lb
 end
 
 /-- the semantic carve-out of a whole behaviour -/
-def CarveProgSem (prog : List CStmt) : Bool :=
-  CarveSsSem { assigned := assignedOfList prog, cfg := Cfg.fixed } prog
+def CarveProgSem (prog : List CStmt) (lb : Bool := false) : Bool :=
+  CarveSsSem { assigned := assignedOfList prog, cfg := Cfg.fixed } prog lb
 
 /-- Per-behaviour certificate with the SEMANTIC carve-out (`certified` of Model/Certificate.lean with `CarveSs`
     replaced by `CarveSsSem`).  The side condition under which the hybrid lowering model `compileProgH` coincides with
@@ -159,6 +226,15 @@ def certifiedSem (prog : List CStmt) : Bool :=
   let c := ctxOf prog
   c.ok && WFStmts c prog && (exprsOfList prog).all (WFES c) &&
   CarveProgSem prog && HybFreeSs prog && HSameProg Cfg.asCode prog
+
+/-- The certificate with the low-bits macro arguments accepted (`lb = true`): `Sem.certifiedSemX_correct` proves the
+    end-to-end statement for it under the ADDITIONAL assumption `Sem.MsLow ms` on the macro interpretation
+    (`extract64`/`sextract64` do not depend on the bits of their first argument from `start + len` upwards).
+    `certifiedSem prog → certifiedSemX prog` (`Sem.certifiedSemX_of_certifiedSem`). -/
+def certifiedSemX (prog : List CStmt) : Bool :=
+  let c := ctxOf prog
+  c.ok && WFStmts c prog && (exprsOfList prog).all (WFES c) &&
+  CarveProgSem prog true && HybFreeSs prog && HSameProg Cfg.asCode prog
 
 /-! ### bare immediate statements in front of an assignment to the same immediate
 
@@ -224,16 +300,18 @@ def certifiedSemP (prog : List CStmt) : Bool :=
 theorem certifiedSemP_eq (prog : List CStmt) : certifiedSemP prog = certifiedSem prog := rfl
 
 /-- which conjuncts of `certifiedSem` (= `certifiedSemP`) hold (diagnostics for the evidence): ctx ok, WFStmts, WFES,
-    CarveProgSem, HybFreeSs, HSameProg.  A bare pure value statement `e;` counts under WFES (`e` is among `exprsOf`),
+    CarveProgSem, HybFreeSs, HSameProg; a seventh digit: CarveProgSem with the low-bits flag (the conjunct `certifiedSemX`
+    has in its place).  A bare pure value statement `e;` counts under WFES (`e` is among `exprsOf`),
     CarveProgSem (`CarveESem e`), HybFreeSs (`HybFree e`), HSameProg (`HSame e`). -/
 def certifiedSemDetail (prog : List CStmt) : String :=
   let c := ctxOf prog
   let b := fun (x : Bool) => if x then "1" else "0"
-  b c.ok ++ b (WFStmts c prog) ++ b ((exprsOfList prog).all (WFES c)) ++ b (CarveProgSem prog) ++ b (HybFreeSs prog) ++ b (HSameProg Cfg.asCode prog)
+  b c.ok ++ b (WFStmts c prog) ++ b ((exprsOfList prog).all (WFES c)) ++ b (CarveProgSem prog) ++ b (HybFreeSs prog) ++
+    b (HSameProg Cfg.asCode prog) ++ b (CarveProgSem prog true)
 
 /-- the diagnostics the driver reports: of the behaviour itself when its certificate holds, else of the behaviour
     without the bare immediate reads in front of an assignment to the same immediate (`certifiedSemB`) -/
 def certDetail (prog : List CStmt) : String :=
-  if certifiedSem prog then certifiedSemDetail prog else certifiedSemDetail (dropBare prog)
+  if certifiedSem prog || certifiedSemX prog then certifiedSemDetail prog else certifiedSemDetail (dropBare prog)
 
 end Rzil
